@@ -357,6 +357,11 @@ class Walker:
         else:
             c = int_tensor(rng, [R[k], rng.randint(1, 4), R[k + 1]], x.cores[0].dtype)
         info["inplace"] = i
+        if rng.random() < 0.2:
+            # negative positions are not accepted by set_core (InvalidArguments); if an implementation accepts them it must
+            # still leave a well-formed object behind — the walk does not replay these through the model
+            x.set_core(k - len(x.N), c)
+            return None
         info["set_core"] = (k, list(c.shape))
         info["before_obj"] = self.snapshot(x)
         x.set_core(k, c)
